@@ -417,11 +417,19 @@ pub fn pp_program(rng: &mut Rng, max_depth: usize, rich: bool) -> PpProgram {
 pub fn define_table(rng: &mut Rng) -> Vec<DefineSpec> {
     let mut v = vec![];
     for i in 0..rng.below(4) {
-        let name = match rng.below(6) {
+        // names the generated sources test AND use as text macros, so that every shape of a caller entry
+        // (no value object, value without body, body, formals) meets a usage
+        let name = match rng.below(12) {
             0 => "EXT".to_string(),
             1 => "X".to_string(),
             2 => "module".to_string(),
             3 => "define".to_string(),
+            4 => format!("M{}", rng.below(4)),
+            5 => format!("F{}", rng.below(3)),
+            6 => "TOPW".to_string(),
+            7 => format!("INC{}", rng.below(3)),
+            8 => format!("CO{}", rng.below(3)),
+            9 => "A".to_string(),
             _ => format!("D{}", i),
         };
         let kind = rng.below(5);
@@ -463,6 +471,9 @@ pub fn token_soup(rng: &mut Rng, n: usize) -> String {
 
 pub fn mutate(rng: &mut Rng, src: &str) -> String {
     let mut chars: Vec<char> = src.chars().collect();
+    if rng.chance(1, 5) {
+        return punct_edit(rng, src);
+    }
     let ops = 1 + rng.below(3);
     for _ in 0..ops {
         if chars.is_empty() {
@@ -771,5 +782,35 @@ pub fn comment_macro_program(rng: &mut Rng) -> String {
         }
     }
     out.push_str("module m; /* m */ endmodule // tail\n");
+    out
+}
+
+
+/// near-valid inputs: one punctuation-level edit (dangling separator before a closer, doubled or
+/// dropped separator, dropped closer) at a random place of an accepted source
+pub fn punct_edit(rng: &mut Rng, text: &str) -> String {
+    let b = text.as_bytes();
+    let closers: Vec<usize> = (0..b.len()).filter(|i| matches!(b[*i], b')' | b']' | b'}')).collect();
+    let seps: Vec<usize> = (0..b.len()).filter(|i| matches!(b[*i], b',' | b';')).collect();
+    let mut out = text.to_string();
+    match rng.below(5) {
+        0 | 1 if !closers.is_empty() => {
+            let i = *rng.pick(&closers);
+            out.insert(i, ',');
+        }
+        2 if !seps.is_empty() => {
+            let i = *rng.pick(&seps);
+            out.insert(i, b[i] as char);
+        }
+        3 if !seps.is_empty() => {
+            let i = *rng.pick(&seps);
+            out.replace_range(i..i + 1, " ");
+        }
+        _ if !closers.is_empty() => {
+            let i = *rng.pick(&closers);
+            out.replace_range(i..i + 1, " ");
+        }
+        _ => {}
+    }
     out
 }
